@@ -494,6 +494,22 @@ def day_succ(rep, prog, rule="DAY-SUCC", crate="jiff", fn_filter=lambda n: n.sta
                    "length of the shortest month: day + 1 exists in every month) or that the day is not the last of its month "
                    "(`day == days_in_month` false). A pre-filter `day > 28` lets February 28 of a common year through to a "
                    "February 29 that the unchecked constructor does not refuse")
+    if crate == "jiff":
+        from . import facts
+        from .report import Report
+
+        class _Probe:                                    # collects the verdicts on the control crate without reporting them
+            def __init__(self): self.v = {}
+            def rule(self, *a, **k): pass
+            def ok(self, rule, key, **k): self.v[key.split(" | ")[0].rsplit("::", 1)[-1]] = True
+            def violation(self, rule, key, *a, **k): self.v[key.split(" | ")[0].rsplit("::", 1)[-1]] = False
+            def floor(self, *a, **k): pass
+        pr = _Probe()
+        day_succ(pr, facts.load_controls(), rule, crate="controls", fn_filter=lambda n: n.endswith("_day_succ"), floor=0)
+        if pr.v.get("bad_day_succ") is False and pr.v.get("good_day_succ") is True:
+            rep.ok(rule, "_controls", how="reports bad_day_succ (`day > 28`), accepts good_day_succ (fixtures/controls)")
+        else:
+            rep.violation(rule, "_controls", "the matcher no longer separates the control functions: %s" % pr.v, "fixtures/controls/src/lib.rs")
     n = 0
     for name, f in sorted(prog.fns.items()):
         if not fn_filter(name):
@@ -605,3 +621,181 @@ def utc_whole(rep, prog, rule="UTC-WHOLE"):
                               "zero" % " & ".join(why), loc)
     if not found:
         rep.violation(rule, "UTC return", "anchor missing: TimeZone::fixed no longer returns TimeZone::UTC on any path", g.loc())
+
+
+# ------------------------------------------------------------------------------------------------------------------
+_NONADV = ("byte", "maybe_byte", "is_done", "pos", "remaining", "new")
+
+
+def _cursor_analyse(f, T, cfg, requires, entry, prefix):
+    """forward must-analysis of `the cursor is known not to be at the end` over the blocks of f.
+    Returns the list of (block, call, what) where byte() or a callee that needs a byte is reached without that knowledge."""
+    nb = len(f.blocks)
+    IN = [True] * nb
+    IN[0] = entry
+    idom_ok = cfg.dominates
+
+    def callee(t):
+        p = t.get("path", "")
+        return p[len(prefix):] if p.startswith(prefix) else None
+
+    adv_blocks = [bi for bi, t in mir.iter_calls(f) if callee(t) is not None and callee(t) not in _NONADV]
+
+    def fresh(d, u):
+        """no advancing call strictly between the test's call block d and the switch block u"""
+        for a in adv_blocks:
+            if a != d and a in cfg.reachable_from(d) and u in cfg.reachable_from(a) and not (a == u):
+                # a lies on some path d -> u ; only harmful when it does not pass d again (loops re-run the test)
+                if u in cfg.reachable_from(a, avoid=(d,)):
+                    return False
+        return True
+
+    def test_block(u, name):
+        best = None
+        for bi, t in mir.iter_calls(f):
+            if callee(t) == name and idom_ok(bi, u):
+                if best is None or idom_ok(best, bi):
+                    best = bi
+        return best
+
+    def edge_state(u, v, s_out):
+        t = f.blocks[u]["term"]
+        if t["t"] != "switch":
+            return s_out
+        vals, tg = list(t["vals"]), list(t["targets"])
+        c = T.operand(t["op"], 0, (u, "term"))
+        if t.get("op_ty") == "bool":
+            if v in tg and v != t["otherwise"]:
+                truth = bool(vals[tg.index(v)])
+            elif v == t["otherwise"] and v not in tg and len(vals) == 1:
+                truth = not bool(vals[0])
+            else:
+                return s_out
+            c, truth = strip_not(c, truth)
+            if is_call(c, "is_done") and truth is False and (d := test_block(u, "is_done")) is not None and fresh(d, u):
+                return True
+            if is_call(c, "bump") and truth is True and (d := test_block(u, "bump")) is not None and fresh(d, u):
+                return True
+            if isinstance(c, tuple) and c and c[0] == "call" and c[1].rsplit("::", 1)[-1] in ("eq", "ne") and len(c[2]) == 2:
+                is_eq = c[1].rsplit("::", 1)[-1] == "eq"
+                has_mb = any(is_call(x, "maybe_byte") for a in c[2] for x in walk(a))
+                has_some = any(isinstance(x, tuple) and x and ((x[0] == "agg" and "Some" in str(x[1:3])) or (x[0] == "variant" and "Some" in str(x)))
+                               for a in c[2] for x in walk(a)) or "Some" in show(c, maxd=4)
+                if has_mb and has_some and truth == is_eq and (d := test_block(u, "maybe_byte")) is not None and fresh(d, u):
+                    return True
+            return s_out
+        # discriminant of Option<u8> returned by maybe_byte(): variant 1 = Some
+        if any(is_call(x, "maybe_byte") for x in walk(c)) and isinstance(c, tuple) and c and c[0] in ("disc", "call", "un"):
+            if v in tg and vals[tg.index(v)] == 1 and v != t["otherwise"]:
+                if (d := test_block(u, "maybe_byte")) is not None and fresh(d, u):
+                    return True
+            if v == t["otherwise"] and v not in tg and vals == [0]:
+                if (d := test_block(u, "maybe_byte")) is not None and fresh(d, u):
+                    return True
+        return s_out
+
+    def out_state(b, s_in):
+        t = f.blocks[b]["term"]
+        if t["t"] != "call":
+            return s_in
+        m = callee(t)
+        if m is None or m in _NONADV:
+            return s_in
+        return False
+
+    changed = True
+    it = 0
+    while changed and it < 200:
+        changed = False
+        it += 1
+        for b in range(1, nb):
+            preds = [p for p in cfg.pred[b] if p in reach]
+            if not preds:
+                continue
+            s = all(edge_state(p, b, out_state(p, IN[p])) for p in preds)
+            if s != IN[b]:
+                IN[b] = s
+                changed = True
+    bad = []
+    for bi, t in mir.iter_calls(f):
+        if bi not in reach:
+            continue
+        m = callee(t)
+        if m == "byte" and not IN[bi]:
+            bad.append((bi, t, "byte()"))
+        elif m is not None and requires.get(m) and not IN[bi]:
+            bad.append((bi, t, m + "(), which reads a byte before testing for the end"))
+    return bad
+
+
+def byte_guard(rep, prog, rule="BYTE-GUARD", crate="jiff", floor=15):
+    rep.rule(rule, "typestate of the POSIX TZ parser's cursor (shared::posix::Parser): `byte()` indexes the input at the cursor and panics "
+                   "at the end of the input, so every call of byte() - and of every parser method that calls byte() before testing for "
+                   "the end - is reached only with the knowledge `not at the end`, established on every path by `!is_done()`, a "
+                   "`bump()` that returned true, or `maybe_byte()` being Some, with no cursor-advancing call in between. The "
+                   "requirement of a method that reads first and tests later moves to each of its call sites, up to the entry "
+                   "points. (This replaces a reviewed reason on byte()'s bounds check that said 'every caller checks first': it "
+                   "silently covered a caller that ignored the result of bump().)")
+    prefix = "shared::posix::Parser::<'s>::"
+    full = crate + "::" + prefix
+    fns = {n[len(full):]: g for n, g in prog.fns.items() if n.startswith(full) and "{closure" not in n}
+    if "byte" not in fns or "bump" not in fns:
+        rep.violation(rule, "anchor", "anchor missing: shared::posix::Parser::byte / bump", "src/shared/posix.rs")
+        return
+    ctx = {}
+    for m, g in fns.items():
+        cfg = mir.CFG(g)
+        ctx[m] = (g, Terms(g), cfg)
+    global reach
+    requires = {}
+    for _round in range(6):
+        new = {}
+        for m, (g, T, cfg) in ctx.items():
+            if m in _NONADV or m == "bump":
+                continue
+            reach = cfg.reachable()
+            hard = _cursor_analyse(g, T, cfg, requires, True, prefix)
+            soft = _cursor_analyse(g, T, cfg, requires, False, prefix)
+            new[m] = (not hard) and bool(soft)
+        if new == requires:
+            break
+        requires = new
+    n = 0
+    for m, (g, T, cfg) in sorted(ctx.items()):
+        if m in _NONADV or m == "bump":
+            continue
+        reach = cfg.reachable()
+        hard = {id(t): what for (_b, t, what) in _cursor_analyse(g, T, cfg, requires, True, prefix)}
+        k = {}
+        for bi, t in mir.iter_calls(g):
+            p = t.get("path", "")
+            if not p.startswith(prefix):
+                continue
+            c = p[len(prefix):]
+            if c != "byte" and not requires.get(c):
+                continue
+            k[c] = k.get(c, 0) + 1
+            n += 1
+            key = "%s | %s#%d" % (m, c, k[c])
+            loc = "%s:%s" % (t["span"]["file"], t["span"]["line"])
+            if id(t) in hard:
+                rep.violation(rule, key, "%s calls %s on a path that does not establish `not at the end of the input` after the last "
+                              "cursor movement: an input that ends here makes byte() index past the end (panic)" % (m, hard[id(t)]), loc)
+            else:
+                rep.ok(rule, key, how="not-at-end known on every path" + (" (given the method's own entry requirement)" if requires.get(m) else ""), loc=loc)
+    # entry points: methods with an entry requirement that are called from outside the parser
+    for name, g in sorted(prog.fns.items()):
+        if name.startswith(full) or not name.startswith(crate + "::"):
+            continue
+        for bi, t in mir.iter_calls(g):
+            p = t.get("path", "")
+            if p.startswith(prefix) and requires.get(p[len(prefix):]):
+                n += 1
+                rep.violation(rule, "%s | %s" % (name, p[len(prefix):]), "%s is called from outside the parser although it reads a byte before "
+                              "testing for the end of the input" % p[len(prefix):], "%s:%s" % (t["span"]["file"], t["span"]["line"]))
+    if not any(requires.values()):
+        rep.violation(rule, "_positive", "the analysis finds no method that reads a byte before testing for the end (on the pinned tree "
+                      "parse_posix_date, parse_posix_datetime, parse_rule and the two abbreviation parsers do): the matcher is blind", "src/shared/posix.rs")
+    rep.floor(rule + " byte()-dependent call sites", n, floor)
+    rep.ok(rule, "_summary", how="methods that need a byte at entry: %s" % sorted(m for m, v in requires.items() if v), nontrivial=False)
+    return n
